@@ -337,6 +337,19 @@ def m_localtime(ip, args, kw, ctx):
     return StructTime(hour=h, min=m, epoch=t)
 
 
+GM_HOUR = z3.Function("GM_HOUR", IntS, IntS)
+GM_MIN = z3.Function("GM_MIN", IntS, IntS)
+
+
+def m_gmtime(ip, args, kw, ctx):
+    """UTC broken-down time: (t div 3600) mod 24, (t div 60) mod 60 -- unrelated to the local time of the host zone"""
+    t = args[0] if args else None
+    if t is None or is_symreal(t):
+        raise _uns("gmtime() of now / of a float")
+    ctx.used_models.add("time.gmtime: hour = (t div 3600) mod 24, minute = (t div 60) mod 60 (UTC)")
+    return StructTime(hour=simp((zi(t) / 3600) % 24), min=simp((zi(t) / 60) % 60), epoch=t)
+
+
 def time_method(ip, o, name, args, kw, ctx):
     I = _I()
     if isinstance(o, SymTime):
@@ -532,7 +545,7 @@ def install(ip):
     e["time.strptime"] = B("time.strptime", m_time_strptime)
     e["time.mktime"] = B("time.mktime", m_mktime)
     e["time.localtime"] = B("time.localtime", m_localtime)
-    e["time.gmtime"] = B("time.gmtime", lambda ip, a, k, c: (_ for _ in ()).throw(_uns("time.gmtime has no model")))
+    e["time.gmtime"] = B("time.gmtime", m_gmtime)
     e["datetime.time"] = B("datetime.time", m_time_ctor)
     e["datetime.timedelta"] = B("datetime.timedelta", m_timedelta_ctor)
     e["datetime.datetime"] = I.EnvObj("datetime_class")
